@@ -128,6 +128,9 @@ func c10HistText(d int, minimal bool) string {
 	return t
 }
 
+// an unrelated transformer between two datum-shifted geographic references (built once)
+var c10Other proj.Transformer
+
 func runC10Hist(c map[string]interface{}) []Event {
 	minimal := (len(arr(c["ops"]))+int(seed()))%2 == 1
 	probes := (len(arr(c["ops"]))+int(seed()))%3 == 0 // every third history: failing calls before each recorded call
@@ -189,6 +192,18 @@ func runC10Hist(c map[string]interface{}) []Event {
 					e["probe"] = safely(func() {
 						tfs[a-1](math.NaN(), math.NaN())
 						tfs[a-1](1e30, -1e30)
+						// ... and a call of an unrelated transformer (another datum, another ellipsoid) with the very
+						// coordinates the recorded call is about to get
+						if c10Other == nil {
+							o1, _ := proj.Parse("+proj=longlat +ellps=bessel +towgs84=570.8,85.7,462.8 +no_defs")
+							o2, _ := proj.Parse("+proj=longlat +datum=WGS84 +no_defs") // (no intermediate hop: one conversion on the other datum)
+							if o1 != nil && o2 != nil {
+								c10Other, _ = o1.NewTransform(o2)
+							}
+						}
+						if c10Other != nil {
+							c10Other(px, py)
+						}
 					})
 				}
 				out := safely(func() { x, y, err = tfs[a-1](px, py) })
